@@ -356,16 +356,12 @@ func (m *MTProto) dispatchResponse(data tl.Object) error {
 messageTypeSwitching:
 	switch message := data.(type) {
 	case *objects.MessageContainer:
-		// every message of the container is processed, the first failure is reported
-		var firstErr error
+		// every message of the container is processed; one that can't be handled is reported on its own
 		for _, v := range *message {
 			err := m.processResponse(v)
-			if err != nil && firstErr == nil {
-				firstErr = errors.Wrap(err, "processing item in container")
+			if err != nil {
+				m.warnError(errors.Wrap(err, "processing item in container"))
 			}
-		}
-		if firstErr != nil {
-			return firstErr
 		}
 
 	case *objects.BadServerSalt:
